@@ -180,6 +180,7 @@ type c05pair struct {
 	ifaceName string
 	imethods  []*c05method
 	embeds    string // name of an embedded interface (same package) or ""
+	deep      bool   // the embedded interface itself embeds another one that holds the first method
 	tname     string
 	tkind     string // struct | int | iface
 	tmethods  []*c05method
@@ -194,7 +195,7 @@ type c05pair struct {
 var c05features = []string{
 	"plain", "plain", "plain", "ptr-depth-plus", "ptr-depth-minus", "byte-uint8", "rune-int32", "any-iface", "alias-named", "alias-basic", "int-int64",
 	"slice-variadic", "chan-dir", "result-count", "param-count", "method-renamed", "method-dropped", "recv-pointer", "embed-value", "embed-ptr", "embed-iface",
-	"iface-embeds-iface", "T-is-interface", "T-nonstruct", "inner-map-elem", "inner-func-result", "array-len", "named-other-pkg", "param-order", "same-pkgname-composite", "same-pkgname-named", "sealed-promoted-from-embedded-base", "sealed-own-unexported-method",
+	"iface-embeds-iface", "T-is-interface", "T-nonstruct", "inner-map-elem", "inner-func-result", "array-len", "named-other-pkg", "param-order", "same-pkgname-composite", "same-pkgname-named", "sealed-promoted-from-embedded-base", "sealed-own-unexported-method", "deep-embedding-all-present", "deep-embedding-deep-method-missing", "deep-embedding-deep-method-wrong",
 }
 
 func genPair(r *base.Rand, idx int, feature string) *c05pair {
@@ -340,6 +341,16 @@ func genPair(r *base.Rand, idx int, feature string) *c05pair {
 		p.viaEmbed = "ptr"
 	case "embed-iface":
 		p.viaEmbed = "iface"
+	case "deep-embedding-all-present":
+		p.embeds, p.deep = p.ifaceName+"Base", true
+	case "deep-embedding-deep-method-missing":
+		p.embeds, p.deep = p.ifaceName+"Base", true
+		p.tmethods = p.tmethods[1:]
+		p.recvPtr = p.recvPtr[1:]
+	case "deep-embedding-deep-method-wrong":
+		p.embeds, p.deep = p.ifaceName+"Base", true
+		t0.params = append(t0.params, basic("bool"))
+		t0.variadic = false
 	case "iface-embeds-iface":
 		p.embeds = p.ifaceName + "Base"
 	case "T-is-interface":
@@ -421,7 +432,15 @@ func genModule(r *base.Rand, nPairs int, startFeature int) *c05module {
 		default:
 			w, qual = implFiles[p.file], m.fileQual[p.file]
 		}
-		if p.embeds != "" {
+		if p.embeds != "" && p.deep {
+			fmt.Fprintf(w, "type %sRoot interface {\n\t%s\n}\n\n", p.embeds, p.imethods[0].sig(ctx, qual))
+			fmt.Fprintf(w, "type %s interface {\n\t%sRoot\n}\n\n", p.embeds, p.embeds)
+			fmt.Fprintf(w, "type %s interface {\n\t%s\n", p.ifaceName, p.embeds)
+			for _, im := range p.imethods[1:] {
+				fmt.Fprintf(w, "\t%s\n", im.sig(ctx, qual))
+			}
+			w.WriteString("}\n\n")
+		} else if p.embeds != "" {
 			fmt.Fprintf(w, "type %s interface {\n\t%s\n}\n\n", p.embeds, p.imethods[0].sig(ctx, qual))
 			fmt.Fprintf(w, "type %s interface {\n\t%s\n", p.ifaceName, p.embeds)
 			for _, im := range p.imethods[1:] {
